@@ -68,6 +68,10 @@ func c06(r *core.Report) {
 		}
 		r.Check(okAll, "C06-OFFERED-FIRST", core.FnName(lit), p.Pos(lit.Pos()), "every return is dominated by the loop that delivers the message to the sessions", "the routine can return (at "+where+") before the message was offered to the existing sessions: a retransmitted InitHello or InitDone is swallowed, the session never re-sends its cached RespHello/RespDone, and after one lost reply the handshake never completes")
 	}
+	// ---- C06-RETRANSMIT-TIMER (shared with C07-TIMER): "completes under loss" rests on the handshake
+	// callback re-arming its own timer
+	r.Rule("C06-RETRANSMIT-TIMER", "the timer's fire routine clears its pending flag before the callback and never after it; Reset sets it", 3)
+	ruleTimer(r, "C06-RETRANSMIT-TIMER")
 	r.Rule("C06-PAIR-CLOSURE", "two honest sessions under arbitrary delivery of their genuine messages: no panic, one round from ready", 1)
 	ts.checkPairClosure("C06-PAIR-CLOSURE")
 }
